@@ -1,9 +1,9 @@
 #!/usr/bin/env python3
-"""Regenerates the findings table (§10) and the seeded table (§13) of DESIGN.md between their markers."""
+"""Regenerates the status table (§9.0), the findings table (§10) and the seeded table (§13) of DESIGN.md between their markers."""
 import re, subprocess
 p = "/verif/DESIGN.md"
 s = open(p).read()
-for name, cmd in (("FINDINGS", "/verif/tools/findings_table.py"), ("SEEDED", "/verif/tools/seeded_table.py")):
+for name, cmd in (("FINDINGS", "/verif/tools/findings_table.py"), ("SEEDED", "/verif/tools/seeded_table.py"), ("STATUS", "/verif/tools/status_table.py")):
     out = subprocess.run([cmd], capture_output=True, text=True).stdout
     s = re.sub(rf"<!-- {name}-TABLE-BEGIN -->.*?<!-- {name}-TABLE-END -->",
                lambda m: f"<!-- {name}-TABLE-BEGIN -->\n{out}<!-- {name}-TABLE-END -->", s, flags=re.S)
